@@ -218,12 +218,56 @@ class BicPartsTask(T.Task):
         return {"p": "".join(rnd.choice("ABCDEFGHXYZ0189") for _ in range(self.n))}
 
 
+class BicAcceptedPartsTask(T.Task):
+    """for every cleaned text p of ANY length: if BIC(p) is accepted, then len(p) is 8 or 11 and party prefix + country
+    code + location code + optional branch code is the compact form (the fixed-length tasks above cover the slices)"""
+    crosscheck_samples = 600
+
+    def __init__(self):
+        self.name = "accepted BIC: parts tile the compact form [any length]"
+        self.contracts = {"schwifty.common.clean": CC.clean_contract}
+
+    def setup(self, I):
+        return {"p": CC.fresh_clean_text(I, "p")}
+
+    def code(self, I, inp):
+        from schwifty import BIC
+        obj = I.call(BIC, [inp["p"]], {})
+        return ("ACCEPTED", obj)
+
+    def custom_obligations(self, I, inp, code_paths, cobs):
+        from pyvc import solve
+        p = inp["p"]
+        out = []
+        for i, (path, o) in enumerate(cobs):
+            if isinstance(o, (T.Escape, T.ExcTag)):
+                continue
+            out.append((f"path {i}: an accepted BIC has 8 or 11 characters (so that 4 + 2 + 2 (+ 3) parts tile it)", path["pc"],
+                        z3.Or(p.len == 8, p.len == 11)))
+        return out
+
+    def native_agree(self, inp):
+        from schwifty import BIC
+        p = inp["p"]
+        o = T.native_obs(lambda: BIC(p))
+        if isinstance(o, (T.ExcTag, T.Escape)):
+            return not isinstance(o, T.Escape), o, "rejected"
+        parts = (o.bank_code, o.country_code, o.location_code, o.branch_code)
+        ok = "".join(parts) == o.compact == p and [len(x) for x in parts[:3]] == [4, 2, 2] and len(parts[3]) in (0, 3)
+        return ok, parts, p
+
+    def sample(self, rnd):
+        n = rnd.choice([7, 8, 9, 10, 11, 12])
+        body = "".join(rnd.choice("ABCDEFGHXYZ0189") for _ in range(n))
+        return {"p": body[:4] + rnd.choice(["DE", "FR", "GB", "US"]) + body[6:]}
+
+
 def main(seed, tier):
     from props import common, ibantasks
     t0 = time.time()
     ccs = sorted(ibantasks.table())
     specs = [("props.c11", "DecomposeTask", (cc,)) for cc in ccs] + [("props.c11", "ReassembleTask", (cc,)) for cc in ccs]
-    specs += [("props.c11", "BicPartsTask", (n,)) for n in (8, 11)]
+    specs += [("props.c11", "BicPartsTask", (n,)) for n in (8, 11)] + [("props.c11", "BicAcceptedPartsTask", ())]
     results = common.run_tasks(specs, seed, tier)
     from props.c01 import ASSUMPTIONS
     return common.finish(
